@@ -773,3 +773,271 @@ Proof.
   - rewrite Er. apply supn_sup; auto.
   - discriminate.
 Qed.
+
+(* ------------------------------------------------------------------ *)
+(* C04: matching is stable under server-side decoration                *)
+(* ------------------------------------------------------------------ *)
+From Coq Require Import Permutation.
+
+Lemma forallb_perm {A} (f : A -> bool) l l' : Permutation l l' -> forallb f l = forallb f l'.
+Proof.
+  induction 1; cbn; auto.
+  - rewrite IHPermutation. reflexivity.
+  - destruct (f x), (f y); reflexivity.
+  - congruence.
+Qed.
+
+Lemma existsb_perm {A} (f : A -> bool) l l' : Permutation l l' -> existsb f l = existsb f l'.
+Proof.
+  induction 1; cbn; auto.
+  - rewrite IHPermutation. reflexivity.
+  - destruct (f x), (f y); reflexivity.
+  - congruence.
+Qed.
+
+Lemma forallb_ext' {A} (f g : A -> bool) l : (forall x, f x = g x) -> forallb f l = forallb g l.
+Proof. intros E. induction l; cbn; auto. rewrite E, IHl. reflexivity. Qed.
+
+Lemma set_match_perm tl al al' : Permutation al al' -> set_match tl al' = set_match tl al.
+Proof.
+  intros P. unfold set_match.
+  rewrite <- (forallb_perm hashable _ _ P).
+  rewrite <- (forallb_perm (fun y => set_mem y tl) _ _ P).
+  rewrite (forallb_ext' (fun x => set_mem x al') (fun x => set_mem x al))
+    by (intros x; unfold set_mem; symmetry; apply existsb_perm; exact P).
+  destruct tl as [|t0 tr]; auto.
+  destruct al as [|a0 ar].
+  - apply Permutation_nil in P. subst. reflexivity.
+  - destruct al' as [|b0 br]; auto.
+    apply Permutation_sym, Permutation_nil in P. discriminate P.
+Qed.
+
+Section DecKey.
+  Variable rec : json -> json -> json -> bool -> outs.
+  Variables (sk lk : list string) (cfg : list (string * list json)).
+
+  Lemma key_match_owners ak la tv : key_match rec sk lk cfg ak la K_OWNERS tv = O_match.
+  Proof. unfold key_match. rewrite String.eqb_refl. reflexivity. Qed.
+
+  (* a key compared against last-applied does not read the live map *)
+  Lemma key_match_la_ext ak ak' la k tv :
+    mem_str k lk = true ->
+    key_match rec sk lk cfg ak' la k tv = key_match rec sk lk cfg ak la k tv.
+  Proof. intros M. unfold key_match. rewrite M. reflexivity. Qed.
+
+  Lemma key_match_present ak la k tv :
+    specified_key lk k = true -> key_match rec sk lk cfg ak la k tv = O_match ->
+    exists v, lookup k ak = Some v.
+  Proof.
+    intros S H. apply specified_key_inv in S. destruct S as [_ [S2 S3]].
+    unfold key_match in H. rewrite S2, S3 in H.
+    destruct (lookup k ak) as [v|]; eauto.
+    destruct (probe_la la k); onomatch H.
+  Qed.
+
+  Lemma key_match_as_map_inv ak la k tv v lav fields :
+    specified_key lk k = true -> lookup k cfg = Some fields ->
+    probe_la la k = LaVal lav -> lookup k ak = Some v ->
+    key_match rec sk lk cfg ak la k tv = O_match ->
+    exists T A L, list_to_object tv fields = Ret T /\ list_to_object v fields = Ret A /\
+                  list_to_object lav fields = Ret L /\ rec T A L false = O_match.
+  Proof.
+    intros S C P Lk H. apply specified_key_inv in S. destruct S as [_ [S2 S3]].
+    unfold key_match in H. rewrite S2, P, S3, Lk, C in H. cbn [read_la] in H.
+    destruct (list_to_object tv fields) as [T| |]; try onomatch H.
+    destruct (list_to_object v fields) as [A| |]; try onomatch H.
+    destruct (list_to_object lav fields) as [L| |]; try onomatch H.
+    exists T, A, L. auto.
+  Qed.
+End DecKey.
+
+Lemma list_loop_match_inv rec : forall tl xl las,
+  List.length tl = List.length xl -> list_loop rec tl xl las = O_match ->
+  forall i t x, nth_error tl i = Some t -> nth_error xl i = Some x ->
+                rec t x (nth i las JNull) false = O_match.
+Proof.
+  induction tl as [|t0 tr IH]; intros xl las Len H i t x Nt Nx; [destruct i; discriminate Nt|].
+  destruct xl as [|x0 xr]; [destruct i; discriminate Nx|].
+  cbn in H.
+  destruct (is_match (rec t0 x0 match las with [] => JNull | y :: _ => y end false)) eqn:M.
+  - apply is_match_true in M. destruct i as [|i]; cbn in Nt, Nx.
+    + inversion Nt. inversion Nx. subst. destruct las; exact M.
+    + cbn in Len. specialize (IH xr _ (eq_add_S _ _ Len) H i t x Nt Nx).
+      destruct las; cbn in *; auto. destruct i; exact IH.
+  - rewrite H in M. discriminate M.
+Qed.
+
+Theorem decoration_f : forall n t s l l' la,
+  vmatch_f n t l la s = O_match -> decorates t s l l' -> vmatch_f n t l' la s = O_match.
+Proof.
+  induction n as [|n IH]; intros t s l l' la H Dec;
+    inversion Dec as [ | tk ? ak ak' sk lk cfg D Pl Mp | tl al al' Len Pt | tl al al' Pm ]; subst; auto;
+    try (cbn in H; onomatch H).
+  - (* set, no fuel *) rewrite vmatch_set_unfold in *. rewrite (set_match_perm _ _ _ Pm). exact H.
+  - (* map *)
+    rewrite vmatch_map_unfold in H |- *.
+    rewrite (dict_match_dirs _ _ _ _ _ _ _ D) in H. rewrite (dict_match_dirs _ _ _ _ _ _ _ D).
+    apply keys_loop_match. intros k tv I Dk.
+    pose proof (proj1 (keys_loop_match _ _ _ _ _ _ _) H k tv I Dk) as Km.
+    destruct (String.eqb k K_OWNERS) eqn:Ok.
+    { apply String.eqb_eq in Ok. subst k. apply key_match_owners. }
+    destruct (mem_str k lk) eqn:Ml.
+    { rewrite (key_match_la_ext _ _ _ _ ak ak'); auto. }
+    assert (Sp : specified_key lk k = true) by (unfold specified_key; rewrite Dk, Ok, Ml; reflexivity).
+    destruct (key_match_present _ _ _ _ _ _ _ _ Sp Km) as [v Lv].
+    destruct (key_match_probe _ _ _ _ _ _ _ _ _ Sp Lv Km) as [lav P].
+    destruct (lookup k cfg) as [fields|] eqn:C.
+    + destruct (key_match_as_map_inv _ _ _ _ _ _ _ _ _ _ _ Sp C P Lv Km) as [T [A [L [LT [LA [LL R]]]]]].
+      destruct (Mp k tv v fields T A I Sp C Lv LT LA) as [v' [A' [Lv' [LA' DA]]]].
+      rewrite (key_match_as_map _ _ _ _ ak' _ _ _ v' _ _ _ _ Sp C P Lv' LT LA'), LL.
+      eapply IH; eauto.
+    + rewrite (key_match_plain _ _ _ _ _ _ _ _ _ _ Sp C P Lv) in Km.
+      destruct (Pl k tv v I Sp C Lv) as [v' [Lv' Dv]].
+      rewrite (key_match_plain _ _ _ _ ak' _ _ _ v' _ Sp C P Lv').
+      eapply IH; eauto.
+  - (* ordered list *)
+    rewrite vmatch_list_unfold in H |- *. unfold list_match in *.
+    destruct tl as [|t0 tr]; destruct al as [|a0 ar]; destruct al' as [|b0 br];
+      try discriminate Len; auto; try onomatch H.
+    rewrite Len.
+    destruct (negb (Nat.eqb (List.length (t0 :: tr)) (List.length (a0 :: ar)))) eqn:El; [onomatch H|].
+    apply Bool.negb_false_iff, Nat.eqb_eq in El.
+    assert (Loop : forall las, list_loop (vmatch_f n) (t0 :: tr) (a0 :: ar) las = O_match ->
+                               list_loop (vmatch_f n) (t0 :: tr) (b0 :: br) las = O_match).
+    { intros las Hl. apply list_loop_match; [congruence|].
+      intros i t x Nt Nx.
+      destruct (nth_error (a0 :: ar) i) as [a|] eqn:Na.
+      - eapply IH; [exact (list_loop_match_inv _ _ _ _ El Hl i t a Nt Na) | exact (Pt i t a x Nt Na Nx)].
+      - exfalso. apply nth_error_None in Na.
+        assert (i < List.length (t0 :: tr)) by (apply nth_error_Some; congruence). lia. }
+    destruct (negb (py_truthy la)); auto.
+    destruct la; auto.
+  - rewrite vmatch_set_unfold in *. rewrite (set_match_perm _ _ _ Pm). exact H.
+Qed.
+
+(* C04 match_monotone_decoration *)
+Theorem match_monotone_decoration_thm t s l l' la :
+  vmatch t l la s = O_match -> decorates t s l l' -> vmatch t l' la s = O_match.
+Proof. unfold vmatch. apply decoration_f. Qed.
+
+(* ------------------------------------------------------------------ *)
+(* C04: the tail at the fixpoint                                       *)
+(* ------------------------------------------------------------------ *)
+
+Definition owner_check (cfg : tail_cfg) (live : json) : res reffed_result :=
+  if tc_should_own cfg then validate_owner_reffed_r live (tc_owner_ref cfg) else Done (Reffed true).
+
+Lemma tail_eq cfg t live ann :
+  tail cfg t live ann =
+  match owner_check cfg live with
+  | Raised e => Some (TRaised e, [])
+  | Done rr =>
+      match extract_last_applied_r live ann with
+      | Raised e => Some (TRaised e, [])
+      | Done la =>
+          match as_res (vmatch t live la false) with
+          | Some v => Some (dispatch cfg t live rr v)
+          | None => None
+          end
+      end
+  end.
+Proof. reflexivity. Qed.
+
+(* C04 met_no_mutation: target met and owner-reffed => no call, the live
+   object is returned (reconcile_resource_function goes on to postconditions
+   and return) *)
+Theorem met_no_mutation_thm cfg t live ann rr la :
+  owner_check cfg live = Done rr -> reffed_truthy rr = true ->
+  extract_last_applied_r live ann = Done la ->
+  vmatch t live la false = O_match ->
+  tail cfg t live ann = Some (TLive live, []).
+Proof.
+  intros O R E M. rewrite tail_eq, O, E, M. cbn [as_res]. rewrite as_res_match.
+  rewrite dispatch_met; auto.
+Qed.
+
+(* C04 mutation_is_retry on the whole tail *)
+Theorem tail_mutation_is_retry cfg t live ann r calls :
+  tail cfg t live ann = Some (r, calls) -> calls <> [] ->
+  exists d loc, r = TRetry d loc /\ (tc_update cfg = PPatch d \/ tc_update cfg = PRecreate d).
+Proof.
+  rewrite tail_eq. destruct (owner_check cfg live) as [rr|e]; [|intros H; inversion H; congruence].
+  destruct (extract_last_applied_r live ann) as [la|e]; [|intros H; inversion H; congruence].
+  destruct (as_res (vmatch t live la false)) as [v|]; [|discriminate].
+  intros H N. inversion H as [H']. eapply dispatch_mutation_is_retry; eauto.
+Qed.
+
+Lemma tail_calls cfg t live ann r calls :
+  tail cfg t live ann = Some (r, calls) ->
+  calls = [] \/ (exists p, calls = [CPatch p] /\ exists d, tc_update cfg = PPatch d) \/
+  (calls = [CDelete] /\ exists d, tc_update cfg = PRecreate d).
+Proof.
+  rewrite tail_eq. destruct (owner_check cfg live) as [rr|e]; [|intros H; inversion H; auto].
+  destruct (extract_last_applied_r live ann) as [la|e]; [|intros H; inversion H; auto].
+  destruct (as_res (vmatch t live la false)) as [v|]; [|discriminate].
+  intros H. inversion H as [H']. eapply dispatch_calls; eauto.
+Qed.
+
+(* a PATCH sent by the tail carries the prepared target (possibly with owner references) *)
+Lemma dispatch_patch_inv cfg t live rr v r p :
+  dispatch cfg t live rr v = (r, [CPatch p]) ->
+  exists t', (t' = t \/ exists refs, set_owner_refs t refs = Done t') /\ prepare_for_api t' = Done p.
+Proof.
+  unfold dispatch. destruct v as [m|e]; [|intros H; inversion H].
+  destruct (m && reffed_truthy rr); [intros H; inversion H|].
+  destruct (tc_update cfg) as [|d|d]; try (intros H; inversion H; fail).
+  unfold patch_branch.
+  destruct (tc_should_own cfg && negb (reffed_truthy rr)).
+  - destruct (updated_owner_refs_r live (tc_owner_ref cfg)) as [[refs|]|e]; cbn;
+      try (intros H; inversion H; fail).
+    destruct (set_owner_refs t refs) as [t'|e] eqn:S; cbn; try (intros H; inversion H; fail).
+    destruct (prepare_for_api t') eqn:P; intros H; inversion H. subst. eauto.
+  - destruct (prepare_for_api t) eqn:P; intros H; inversion H. subst. eauto.
+Qed.
+
+Lemma tail_patch_inv cfg t live ann r p :
+  tail cfg t live ann = Some (r, [CPatch p]) ->
+  exists t', (t' = t \/ exists refs, set_owner_refs t refs = Done t') /\ prepare_for_api t' = Done p.
+Proof.
+  rewrite tail_eq. destruct (owner_check cfg live) as [rr|e]; [|intros H; inversion H].
+  destruct (extract_last_applied_r live ann) as [la|e]; [|intros H; inversion H].
+  destruct (as_res (vmatch t live la false)) as [v|]; [|discriminate].
+  intros H. inversion H as [H']. eapply dispatch_patch_inv; eauto.
+Qed.
+
+(* C04 no_update_loop: a pass patched; the API server applied the patch (RFC
+   7386); the next pass with unchanged inputs makes no call.  The two facts
+   about the patched object that belong to the payload helpers (C08: the owner
+   reference is there, the annotation reads back the recorded document) are
+   hypotheses here. *)
+Theorem no_update_loop_thm cfg t live ann r p rr2 :
+  good t = true -> no_nulls t = true -> ann_free t = true ->
+  tail cfg t live ann = Some (r, [CPatch p]) ->
+  let live2 := merge_patch live (body p) in
+  owner_check cfg live2 = Done rr2 -> reffed_truthy rr2 = true ->
+  extract_last_applied_r live2 (Some (recorded p)) = Done (Some (recorded p)) ->
+  tail cfg t live2 (Some (recorded p)) = Some (TLive live2, []).
+Proof.
+  intros G N AF T live2 O R E.
+  destruct (tail_patch_inv _ _ _ _ _ _ T) as [t' [Ht P]].
+  eapply met_no_mutation_thm; eauto.
+  eapply patch_reaches_target_thm; eauto.
+Qed.
+
+(* immediately after a create the object meets the target: the payload is
+   prepared from a resource view that contains what the target specifies (a
+   create overlay that does not contradict the target) *)
+Theorem create_reaches_target_thm t view p top :
+  good t = true -> ann_free t = true ->
+  strip view = JMap top -> supn t (JMap top) ->
+  prepare_for_api view = Done p ->
+  vmatch t (body p) (Some (recorded p)) false = O_match.
+Proof.
+  intros G AF Es S P.
+  destruct (v_prepare_done _ _ P) as [top' [md [an [Es' [Lm [La [Eb Er]]]]]]].
+  rewrite Es in Es'. inversion Es'. subst top'.
+  unfold vmatch. cbn [la_arg]. apply sup_match; auto.
+  - rewrite Eb. apply supn_sup. apply supn_add_annotation; auto.
+  - rewrite Er. apply supn_sup; auto.
+  - discriminate.
+Qed.
